@@ -450,6 +450,43 @@ def rule_false_implies_absent(ctx):
     return obs
 
 
+def rule_data_exact(ctx):
+    """the constructor stores exactly one code per input point: the vector of codes starts empty when the points are appended
+    to it (a size argument in its initialiser would leave that many value-initialised codes - the origin - in the index)"""
+    obs = []
+    for u in ctx.units:
+        for f in u.fns(MD + '::MultidimensionalPGMIndex'):
+            if len(f.params) != 2 or f.d.get('special') or f.d.get('implicit'):
+                continue
+            kids = [g for g in u.functions.values() if g.d.get('parent_fn') == f.id or (g.d.get('parent_fn') in [k.id for k in u.functions.values() if k.d.get('parent_fn') == f.id])]
+            appends = 0
+            for g in [f] + kids:
+                for c in g.calls(pred=lambda nd: nd.get('cn') in ('emplace_back', 'push_back', 'insert')):
+                    o = g.n(c).get('obj')
+                    if o and g.term(o, inline=False) == ('field', 'data', ('this',)):
+                        appends += 1
+            ini = [i for i in f.d.get('inits', []) if i.get('field') == 'data']
+            sized = False
+            desc = 'data is default-initialised'
+            if ini:
+                t = f.term(ini[0]['expr'], inline=True)
+                t = _sc(t)
+                if t[0] == 'construct' and len(t[2]) >= 1:
+                    a0 = _sc(t[2][0])
+                    # a count (integral) argument: vector(n) / vector(n, value); an iterator pair would copy the raw points
+                    sized = True
+                    desc = f"data is initialised with `{fmt_term(t)[:70]}`"
+                else:
+                    desc = f"data is initialised with `{fmt_term(t)[:40]}`"
+            if appends == 0:
+                obs.append(Ob('DATA-EXACT', f, 0, 'the constructor appends one code per point to an initially empty vector', 'no append to data found', UNDECIDED, arm='ctor'))
+            else:
+                obs.append(Ob('DATA-EXACT', f, ini[0]['expr'] if ini else 0, 'the constructor appends one code per point to an initially empty vector',
+                              desc + f"; {appends} append site(s)" + ('; the elements created by the initialiser stay in the index next to the appended codes' if sized else ''),
+                              VIOLATED if sized else OK, arm='ctor'))
+    return obs
+
+
 def rule_contains_kind(ctx):
     """the position compared in contains() is FIRST_GE(encode(p)) inside the range pgm.search(encode(p)) returned"""
     obs = []
@@ -614,9 +651,9 @@ def rule_zskip_kind(ctx):
 
 
 def rules_c13(ctx):
-    return (rule_emit_guard(ctx) + rule_zskip_kind(ctx) +
+    return (rule_emit_guard(ctx) + rule_zskip_kind(ctx) + rule_data_exact(ctx) +
             rule_end_guard(ctx, [RI + '::advance', RI + '::RangeIterator', RI + '::operator++']))
 
 
 def rules_c14(ctx):
-    return rule_true_implies_eq(ctx) + rule_false_implies_absent(ctx) + rule_contains_kind(ctx) + rule_end_guard(ctx, [MD + '::contains'])
+    return rule_true_implies_eq(ctx) + rule_false_implies_absent(ctx) + rule_contains_kind(ctx) + rule_data_exact(ctx) + rule_end_guard(ctx, [MD + '::contains'])
